@@ -1,6 +1,8 @@
 import ALV.Common.Json
 import ALV.Model.C20
 import ALV.Spec.C20
+import ALV.Model.C20Call
+import ALV.Model.C13
 namespace ALV.Driver.C20
 open ALV ALV.J ALV.C20
 
@@ -13,6 +15,70 @@ def exceptJson (r : Except String (List Rat)) : Json :=
   match r with
   | .ok l => rats l
   | .error e => Json.mkObj [("err", Json.str e)]
+
+
+/-- call argument: absent = omitted, the string "None" = Python `None`, else a number -/
+def argRat (j : Json) (k : String) : Except String (Arg Rat) :=
+  match j.getObjVal? k with
+  | none => pure none
+  | some (Json.str "None") => pure (some none)
+  | some v => do let r ← getRat v; pure (some (some r))
+
+def argFloat (j : Json) (k : String) : Except String (Arg Float) :=
+  match j.getObjVal? k with
+  | none => pure none
+  | some (Json.str "None") => pure (some none)
+  | some v => do let r ← getFloat v; pure (some (some r))
+
+/-- omitted or a number -/
+def omRat (j : Json) (k : String) : Except String (Option Rat) :=
+  match j.getObjVal? k with
+  | none => pure none
+  | some v => do let r ← getRat v; pure (some r)
+
+def omStr (j : Json) (k : String) : Except String (Option String) :=
+  match j.getObjVal? k with
+  | none => pure none
+  | some v => do let r ← getStr v; pure (some r)
+
+def exceptNats (r : Except String (List Nat)) : Json :=
+  match r with
+  | .ok l => nats l
+  | .error e => Json.mkObj [("err", Json.str e)]
+
+def exceptFloats (r : Except String (List Float)) : Json :=
+  match r with
+  | .ok l => arr floatToJson l
+  | .error e => Json.mkObj [("err", Json.str e)]
+
+def optValJson : Option Rat → Json
+  | none => Json.str "None"
+  | some r => ratToJson r
+
+/-- the documented signature table at its values -/
+def defaultsJson : Json :=
+  arr (fun (s : String × List (String × Option (Option Rat))) => Json.mkObj [
+    ("fn", Json.str s.1),
+    ("params", arr (fun (p : String × Option (Option Rat)) => Json.mkObj ([("name", Json.str p.1)] ++
+      (match p.2 with
+       | none => []
+       | some v => [("default", optValJson v)]))) s.2)]) R.documentedValues
+
+def strategiesJson : Json :=
+  arr (fun (d : String × List (List String)) => Json.mkObj [
+    ("dict", Json.str d.1), ("strategies", arr (fun g => arr Json.str g) d.2)]) documentedStrategies
+
+def strategyOf {σ} (ofName : String → Option σ) (n : Option String) : Except String (Option σ) :=
+  match n with
+  | none => pure none
+  | some n => match ofName n with
+    | some s => pure (some s)
+    | none => throw s!"unknown strategy {n}"
+
+/-- `lowpass(cutoff)` (default strategy `pole`, model of property C13) as `(b, a)` with `a0 = 1` dropped -/
+def poleDesign (c : Float) : List Float × List Float :=
+  let k := ALV.C13.lowpassPole c
+  (k.num, k.den.drop 1)
 
 /-- Inputs longer than this are "long": their specification is evaluated through the one-pass
     recursion `…SpecRec` (linear time) instead of the closed form (quadratic).  The two are equal
@@ -115,6 +181,106 @@ def handle (entry : String) (j : Json) : Except String Json := do
       ("spec_form", specForm (xs.length > longLen)),
       ("multiple", Json.bool multiple),
       ("adjacent", Json.bool adj)]
+  | "defaults" =>
+    pure <| Json.mkObj [("signatures", defaultsJson), ("strategies", strategiesJson),
+      ("pi", ratToJson piQ), ("pi_float", floatToJson floatPi)]
+  | "unwrap_call" =>
+    let md ← argRat j "max_delta"
+    let step ← argRat j "step"
+    let xs ← getList getRat (← field j "xs")
+    let m := R.unwrapCall md step xs
+    let emd := md.resolve (Dflt.unwrap_max_delta.eval piQ)
+    let est := step.resolve (Dflt.unwrap_step.eval piQ)
+    let extra : List (String × Json) := match emd, est with
+      | some md, some st =>
+        if st = 0 then [] else
+        let y := R.unwrap md st xs
+        let multiple := (List.zipWith (fun y x => isMultiple st (y - x)) y xs).all id
+        let bound := if md < st / 2 then st / 2 else md
+        let adj := (List.zipWith (fun y0 y1 => !(decide (bound < absG (y1 - y0)))) y (y.drop 1)).all id
+        [("full", rats y),
+         ("spec", rats (if xs.length > longLen then R.unwrapSpecRec md st xs else R.unwrapSpec md st xs)),
+         ("multiple", Json.bool multiple), ("adjacent", Json.bool adj),
+         ("untouched_expected", Json.bool (!(hasJumpAbove md xs)))]
+      | _, _ => []
+    pure <| Json.mkObj ([("model", exceptJson m), ("eff_max_delta", optValJson emd),
+      ("eff_step", optValJson est)] ++ extra)
+  | "unwrap_call_float" =>
+    let md ← argFloat j "max_delta"
+    let step ← argFloat j "step"
+    let xs ← getList getFloat (← field j "xs")
+    pure <| Json.mkObj [("model", exceptFloats (F.unwrapCall md step xs))]
+  | "clip_call" =>
+    let low ← argRat j "low"
+    let high ← argRat j "high"
+    let xs ← getList getRat (← field j "xs")
+    let m := R.clipCall low high xs
+    let elo := low.resolve (Dflt.clip_low.eval 0)
+    let ehi := high.resolve (Dflt.clip_high.eval 0)
+    let twice := match m with
+      | .ok ys => R.clipCall low high ys
+      | .error e => .error e
+    let bounded : Bool := match m with
+      | .ok ys => ys.all fun y =>
+          (match elo with | some lo => !(decide (y < lo)) | none => true) &&
+          (match ehi with | some hi => !(decide (hi < y)) | none => true)
+      | .error _ => true
+    pure <| Json.mkObj [
+      ("model", exceptJson m), ("spec", exceptJson (R.clipSpec elo ehi xs)),
+      ("twice", exceptJson twice), ("bounded", Json.bool bounded),
+      ("eff_low", optValJson elo), ("eff_high", optValJson ehi)]
+  | "zcross_call" =>
+    let h ← argRat j "hysteresis"
+    let fs ← argRat j "first_sign"
+    let xs ← getList getRat (← field j "xs")
+    let eh := h.resolve (Dflt.zcross_hysteresis.eval 0)
+    let efs := fs.resolve (Dflt.zcross_first_sign.eval 0)
+    let extra : List (String × Json) := match eh, efs with
+      | some h, some fs =>
+        [("spec", nats (if xs.length > longLen then R.zcrossSpecRec h fs xs else R.zcrossSpec h fs xs))]
+      | _, _ => []
+    pure <| Json.mkObj ([("model", exceptNats (R.zcrossCall h fs xs)),
+      ("eff_hysteresis", optValJson eh), ("eff_first_sign", optValJson efs)] ++ extra)
+  | "maverage_call" =>
+    let size ← getNat (← field j "size")
+    if size = 0 then throw "size must be positive"
+    let st ← strategyOf MavgStrategy.ofName (← omStr j "strategy")
+    let zero ← omRat j "zero"
+    let xs ← getList getRat (← field j "xs")
+    let z := zero.getD 0
+    pure <| Json.mkObj [
+      ("model", rats (R.maverageCall st size zero xs)),
+      ("spec", rats (if xs.length > longLen then R.mavgSpecRec size z xs else R.mavgSpec size z xs))]
+  | "accumulate_call" =>
+    let st ← strategyOf AccStrategy.ofName (← omStr j "strategy")
+    let zero ← omRat j "zero"
+    let xs ← getList getRat (← field j "xs")
+    pure <| Json.mkObj [
+      ("model", rats (R.accumulateCall st zero xs)),
+      ("spec", rats (if xs.length > longLen then R.accSpecRec xs else R.accSpec xs))]
+  | "amdf_call" =>
+    let lag ← getNat (← field j "lag")
+    let size ← getNat (← field j "size")
+    if size = 0 then throw "size must be positive"
+    let zero ← omRat j "zero"
+    let xs ← getList getRat (← field j "xs")
+    let z := zero.getD 0
+    pure <| Json.mkObj [
+      ("model", rats (R.amdfCall lag size zero xs)),
+      ("spec", rats (if xs.length > longLen then R.amdfSpecRec lag size z xs else R.amdfSpec lag size z xs))]
+  | "envelope_call" =>
+    -- Float twin: the low-pass design (default strategy `pole`, model of C13) and the default cutoff
+    -- are evaluated here; compared with tolerance on the harness side
+    let st ← strategyOf EnvStrategy.ofName (← omStr j "strategy")
+    let cutoff ← match j.getObjVal? "cutoff" with
+      | none => pure none
+      | some v => do let c ← getFloat v; pure (some c)
+    let xs ← getList getFloat (← field j "xs")
+    let c := cutoff.getD (dnum floatPi Dflt.envelope_cutoff)
+    let ba := poleDesign c
+    pure <| Json.mkObj [
+      ("model", arr floatToJson (envelopeCall poleDesign Float.sqrt floatPi st cutoff xs)),
+      ("eff_cutoff", floatToJson c), ("b", arr floatToJson ba.1), ("a", arr floatToJson ba.2)]
   | "coeffs" =>
     -- the coefficient lists the filter-built strategies are modelled with (structural tie)
     let size ← getNat (← field j "size")
